@@ -65,6 +65,13 @@ var c08Cells = []c08Cell{
 	{"LONGBLOB", "bytes"}, {"BIT", "bytes"},
 	// read as texts by the image scanner since cc35a42 (byte slices before)
 	{"MEDIUMTEXT", "str"}, {"LONGTEXT", "str"}, {"ENUM", "str"}, {"SET", "str"},
+	// UNSIGNED columns: the same DATA_TYPE (and so the same JDBC code) as the signed ones, values up to 2·max+1
+	{"TINYINT UNSIGNED", "int"}, {"SMALLINT UNSIGNED", "int"}, {"INT UNSIGNED", "int"}, {"BIGINT UNSIGNED", "int"},
+}
+
+// c08JDBC is the JDBC code of a cell's column: INFORMATION_SCHEMA reports "tinyint" for TINYINT UNSIGNED
+func c08JDBC(mysql string) types.JDBCType {
+	return types.MySQLStrToJavaType(strings.TrimSuffix(mysql, " UNSIGNED"))
 }
 
 type c08Val struct {
@@ -113,6 +120,16 @@ func genC08Val(r *Rng, kind string, mysql string) c08Val {
 		}
 		// keep the value inside the column type's range, as the database would
 		switch mysql {
+		case "TINYINT UNSIGNED":
+			i = int64(uint8(i))
+		case "SMALLINT UNSIGNED":
+			i = int64(uint16(i))
+		case "INT UNSIGNED":
+			i = int64(uint32(i))
+		case "BIGINT UNSIGNED":
+			if i < 0 {
+				i = -(i + 1)
+			}
 		case "TINYINT":
 			i = int64(int8(i))
 		case "SMALLINT":
@@ -354,7 +371,7 @@ func runC08(c *Ctx) {
 					row := types.RowImage{}
 					for k, cell := range cells {
 						v := genC08Val(r, cell.kind, cell.mysql)
-						jd := types.MySQLStrToJavaType(cell.mysql)
+						jd := c08JDBC(cell.mysql)
 						kt := types.IndexTypeNull
 						if k == 0 {
 							kt = types.IndexTypePrimaryKey
@@ -480,7 +497,7 @@ func runC08(c *Ctx) {
 			c.Out.Oracle(cc.cid, eq && !strings.HasPrefix(obs, "panic"), class, fmt.Sprintf("%s %s jdbc=%d ser=%s comp=%q: %s", cc.cell.mysql, cc.val.tok, cc.jdbc, ser, comp, obs))
 			frag := cc.val.frag
 			c.Out.Tag(cc.cid, fmt.Sprintf("nontrivial=%d fragment=%d hash=%s|%d|%s", b2i(cc.val.v != nil), b2i(frag), ser, int(cc.jdbc), cc.val.tok))
-			c.Out.Count("cell." + cc.cell.mysql + "/" + cc.cell.kind)
+			c.Out.Count("cell." + strings.ReplaceAll(cc.cell.mysql, " ", "-") + "/" + cc.cell.kind)
 			emitted++
 		}
 		// whole-log structure + pipeline (context, compressor, parser) oracle
